@@ -118,7 +118,7 @@ class VC:
         if e != 0:
             parts.append("exp(" + _short(e) + ")")
         for G in s:
-            parts.append("sqrt(" + _short(G) + ")")
+            parts.append(("abs(" + _short(G[1]) + ")") if isinstance(G, tuple) else ("sqrt(" + _short(G) + ")"))
         for H, p in ln:
             parts.append("ln " + _short(H) + (f"^{p}" if p != 1 else ""))
         return " ".join(parts)
